@@ -493,7 +493,7 @@ def static_oracle(files: dict[str, str]) -> list[dict]:
 
 
 IMPORT_SCRIPT = r"""
-import importlib, json, sys, typing, warnings, inspect
+import ast, importlib, json, sys, warnings
 warnings.simplefilter("ignore")
 root = sys.argv[1]
 sys.path.insert(0, root)
@@ -507,15 +507,20 @@ for pkg, modules in jobs.items():
                 del sys.modules[k]
         try:
             mod = importlib.import_module(m)
-            for name, obj in list(vars(mod).items()):
-                if inspect.isclass(obj) and getattr(obj, "__module__", None) == mod.__name__:
-                    try:
-                        typing.get_type_hints(obj)
-                    except Exception as e:
-                        res[m] = f"get_type_hints({name}): {type(e).__name__}: {e}"[:300]
-                        break
-            else:
-                res[m] = None
+            # every annotation written in a class body of this module evaluates in this module's namespace
+            # (the class's own annotations only: inherited ones belong to the module that wrote them)
+            tree = ast.parse(open(mod.__file__, encoding="utf-8").read())
+            res[m] = None
+            for cls in [n for n in tree.body if isinstance(n, ast.ClassDef)]:
+                for st in cls.body:
+                    if isinstance(st, ast.AnnAssign):
+                        try:
+                            eval(compile(ast.Expression(st.annotation), mod.__file__, "eval"), dict(vars(mod)))
+                        except Exception as e:
+                            res[m] = f"annotation of {cls.name}.{ast.unparse(st.target)}: {type(e).__name__}: {e}"[:300]
+                            break
+                if res[m]:
+                    break
         except BaseException as e:
             res[m] = f"{type(e).__name__}: {e}"[:300]
     out[pkg] = res
